@@ -38,6 +38,8 @@ func condFn(i int) restful.RouteSelectionConditionFunction {
 }
 
 // Build constructs a real container from the configuration. Public API only.
+type contT = *restful.Container
+
 func Build(cfg Config) (c *restful.Container, err error) {
 	defer func() {
 		if r := recover(); r != nil {
